@@ -748,4 +748,5 @@ CLAIM = {
     "text": "Generated-input search over malformed texts, structurally invalid objects, method names against function tables and generated instance trees, generated signatures vs argument lists, 32 exception classes with generated messages and translator-rejected payloads; expected code, message content and an empty invocation log are computed independently (strict parser, inspect.signature, tree walk). One known finding is excluded by signature.",
     "note": "Trusts Python's json strict mode, inspect.signature binding and the statement-derived model. Random search.",
     "design_ref": "DESIGN.md section 4, C05",
+    "engine": "E1+E4",
 }
